@@ -421,12 +421,43 @@ class Gen:
 
     def assign(self, scope, ind):
         var = self.pick(self.actives())
-        lhs = self.elem(var, scope)
+        affs = [self.index(dim, scope) for dim in var.dims]
+
+        def text(idx):
+            if not idx:
+                return var.name
+            return f"{var.name}({','.join(a.text() for a in idx)})"
+        lhs = text(affs)
+
+        def stencil():
+            """Another element of the LHS array. Mostly a constant offset
+            of the LHS subscript (provably a different element); rarely an
+            unrelated subscript, which may designate the LHS element under
+            a different spelling (feature 'maybe_alias')."""
+            if self.chance(85):
+                cands = []
+                for pos, dim in enumerate(var.dims):
+                    for off in (1, -1, 2, -2):
+                        aff = affs[pos] + off
+                        if self.inside(aff, dim, scope):
+                            cands.append((pos, aff))
+                if cands:
+                    pos, aff = self.pick(cands)
+                    idx = list(affs)
+                    idx[pos] = aff
+                    return text(idx)
+            ref = self.elem(var, scope)
+            if ref != lhs:
+                self.feat.add("maybe_alias")
+            return ref
 
         def mkref():
-            return self.elem(self.pick(self.actives()), scope)
+            other = self.pick(self.actives())
+            if other is var and var.dims:
+                return stencil()
+            return self.elem(other, scope)
 
-        mkst = (lambda: self.elem(var, scope)) if var.dims else None
+        mkst = stencil if var.dims else None
         return [f"{ind}{lhs} = {self.rhs(lhs, var, scope, mkref, mkst)}"]
 
     def zero(self, scope, ind):
@@ -698,11 +729,14 @@ def kernels(draw):
     one = Aff({}, 1)
 
     def dims_choices(rank):
+        # PSyclone only types dummy-array bounds that are a literal or a
+        # plain reference (an expression or a negative literal bound gives
+        # an UnsupportedFortranType)
         if rank == 1:
             return gen.pick([[(one, nval)], [(one, nval)],
                              [(Aff({}, 0), nval)], [(one, Aff({}, 4))],
-                             [(Aff({}, -1), Aff({}, 2))],
-                             [(Aff({}, 2), nval + 1)], [(one, nval + 1)]])
+                             [(Aff({}, 0), Aff({}, 3))],
+                             [(Aff({}, 2), nval)]])
         return gen.pick([[(one, nval), (one, Aff({}, 2))],
                          [(one, nval), (one, nval)],
                          [(one, Aff({}, 2)), (Aff({}, 0), nval)],
@@ -831,6 +865,8 @@ def kernels(draw):
         for low, high in bounds:
             total *= high - low + 1
         ent = {"name": var.name, "typ": var.typ, "bounds": bounds,
+               "bounds_big": [[lo.value(env_b), hi.value(env_b)]
+                              for lo, hi in var.dims],
                "active": var.active}
         if var.name == "n":
             ent["data"] = [nsmall]
